@@ -13,6 +13,8 @@ Record obs_packet := {
 
 Record obs_case := {
   oc_prog : program;
+  oc_full : bool;                                  (* built through the production path WITH the rule optimizers: the
+                                                      match-set array is then not comparable, decisions are *)
   oc_build : N;                                    (* 0 = built; else error class of the implementation *)
   oc_msets : list mset;                            (* dump of builder.compiledRules *)
   oc_tries : list (list prefix128);                (* dump of builder.simulatedLpmTries *)
@@ -47,7 +49,8 @@ Definition route_in_of (o : obs_packet) : route_in :=
 
 (* error codes (second component):
      1 impl<>model decision   2 impl<>spec decision   3 model<>spec decision
-     4 impl<>model lowering (match-set array / tries / domain sets)   5 impl<>model build outcome *)
+     4 impl<>model lowering (match-set array / tries / domain sets)   5 impl<>model build outcome
+     6 impl<>spec: well-formed program rejected *)
 Definition check_packets (p : program) (wf : bool) (mt : matcher) (pks : list obs_packet) : list (N * N) :=
   List.concat (map (fun ip : N * obs_packet =>
     let '(i, o) := ip in
@@ -60,18 +63,20 @@ Definition check_packets (p : program) (wf : bool) (mt : matcher) (pks : list ob
      else []))
     (combine (map N.of_nat (seq 0 (List.length pks))) pks)).
 
+(* 6: a well-formed program is rejected by the implementation (impl<>spec: C01_lower_total) *)
 Definition check_case (c : obs_case) : list (N * N) :=
   let p := oc_prog c in
   let wf := wf_program p in
+  let rejected := if wf && negb (oc_build c =? 0) then [(0, 6)] else [] in
   match lower_program p with
-  | Err e => if oc_build c =? e then [] else [(0, 5)]
+  | Err e => (if oc_build c =? e then [] else [(0, 5)]) ++ (if wf then [(0, 3)] else []) ++ rejected
   | Ok b =>
     match build_userspace b with
-    | Err e => if oc_build c =? e then [] else [(0, 5)]
+    | Err e => (if oc_build c =? e then [] else [(0, 5)]) ++ (if wf then [(0, 3)] else []) ++ rejected
     | Ok mt =>
-      if negb (oc_build c =? 0) then [(0, 5)] else
-      (if all2 mset_eqb (b_rules b) (oc_msets c) && all2 (all2 px_eqb) (b_tries b) (oc_tries c)
-          && all2 domset_eqb (b_domsets b) (oc_domsets c) then [] else [(0, 4)]) ++
+      if negb (oc_build c =? 0) then (0, 5) :: rejected else
+      (if oc_full c || (all2 mset_eqb (b_rules b) (oc_msets c) && all2 (all2 px_eqb) (b_tries b) (oc_tries c)
+          && all2 domset_eqb (b_domsets b) (oc_domsets c)) then [] else [(0, 4)]) ++
       check_packets p wf mt (oc_packets c)
     end
   end.
